@@ -1257,6 +1257,13 @@ def run_programs(R, have_model):
                     R.count("blk:inplace")
                 if b["usd"]:
                     R.count("blk:use_state_dict")
+                if b["manual"]:
+                    # hand-written swap-back (return_swap=False on the way back: a shared sub-module's swap is re-applied
+                    # once per name -- C13_installed_swap_reapply_noop)
+                    R.count("blk:manual")
+                    rs = reachable(spec, b["target"])
+                    if len(rs) < sum(1 for m in rs for _, c in spec["mods"][m]["subs"] if c is not None) + 1:
+                        R.count("blk:manual:shared-submodule-below-target")
                 if b["as"] != "td":
                     R.count("blk:as=" + b["as"])
             for m in reachable(spec):
@@ -1272,12 +1279,24 @@ def run_programs(R, have_model):
         # extracted definitions themselves)
         scopes = run_model([p[2].replace("(prog ", "(scope ", 1) for p in pending])
         for (case, _, _), sc in zip(pending, scopes):
-            if isinstance(sc, list) and len(sc) == 3:
+            if isinstance(sc, list) and len(sc) == 5:
                 inside = sc[0] == "t" and sc[1] == "t"
                 kind = case["exc"]["kind"]
-                R.count("theorem-domain:" + ("inside" if inside else "outside") + ":" + ("no-exception" if kind == "none" else kind))
+                kind = "no-exception" if kind == "none" else kind
+                R.count("theorem-domain:" + ("inside" if inside else "outside") + ":" + kind)
                 if sc[2] != "t":
                     R.count("theorem-domain:names-not-unique")
+                # C13_restore_mixed_on_exception (plain / swap_dest / in-place blocks) and C13_inplace_contents_partial
+                # (one in-place block on a tree without storage-level aliasing: tidyb evaluated by the extracted code)
+                if sc[0] == "t" and sc[3] == "t" and any(b["inplace"] for b in case["blocks"]):
+                    R.count("theorem-domain:mixed-with-inplace:" + kind)
+                if sc[4] == "t":
+                    nb = "one-block" if len(case["blocks"]) == 1 else "nested"
+                    R.count("theorem-domain:inplace-contents:%s:%s" % (nb, kind))
+                    if any(tied_inplace(case, i) for i in range(len(case["blocks"]))):
+                        R.count("theorem-domain:inplace-contents:tied-object")
+                elif all(b["inplace"] for b in case["blocks"]):
+                    R.count("theorem-domain:inplace-contents:outside")
         outs = run_model([p[2] for p in pending])
         for (case, itrace, _), m in zip(pending, outs):
             R.traces += 1
